@@ -109,6 +109,34 @@ def nesting_inputs(rng, quick):
             src = "".join("let g%d: int = %d\n" % (i, i) for i in range(k)) + body
             src = src.replace("return 0", "return " + "(+ 0 " * (rest // 4) + "0" + ")" * (rest // 4)) if rest >= 4 else src
             out.append(("tokens-%d" % n, src.encode()))
+    # names and parameter lists around every plausible fixed buffer size, in each naming position (front end: the type checker
+    # mangles names of generic instantiations, modules, struct/enum/union members into fixed buffers)
+    def nm(prefix, n):
+        return (prefix + "A" * n)[:n] if n >= len(prefix) else prefix[:max(1, n)]
+    SH = "shadow %s { assert (== 1 1) }\n"
+    for n in (31, 63, 64, 127, 128, 255, 256, 300, 505, 506, 511, 512, 513, 520, 1023, 1024, 1100, 2048, 4100):
+        A, B = nm("Sensor", n), nm("Sample", max(40, n // 13))
+        out.append(("long-generic-arg-%d" % n, ("struct %s {\n    id: int\n}\nstruct %s {\n    reading: int\n}\nunion Either<L, R> {\n    Left { value: L },\n    Right { value: R }\n}\n"
+                    "fn pick(id: int) -> Either<%s, %s> {\n    let s: %s = %s { id: id }\n    let e: Either<%s, %s> = Either<%s, %s>.Left { value: s }\n    return e\n}\n" % (A, B, A, B, A, A, A, B, A, B)
+                    + SH % "pick" + "fn main() -> int {\n    let e: Either<%s, %s> = (pick 7)\n    (println \"ok\")\n    return 0\n}\n" % (A, B) + SH % "main").encode()))
+        out.append(("long-generic-union-name-%d" % n, ("union %s<T> {\n    Some { value: T },\n    None { }\n}\nfn pick(id: int) -> %s<int> {\n    return %s<int>.Some { value: id }\n}\n" % (nm("Opt", n), nm("Opt", n), nm("Opt", n))
+                    + SH % "pick" + "fn main() -> int {\n    let e: %s<int> = (pick 7)\n    (println \"ok\")\n    return 0\n}\n" % nm("Opt", n) + SH % "main").encode()))
+        V = nm("value", n)
+        out.append(("long-names-%d" % n, ("struct %s {\n    %s: int\n}\nenum %s {\n    %s = 1,\n    %s = 2\n}\nunion %s {\n    %s { %s: int },\n    %s { }\n}\n" % (nm("Str", n), nm("fld", n), nm("Enm", n), nm("Va", n), nm("Vb", n), nm("Uni", n), nm("Ka", n), nm("pay", n), nm("Kb", n))
+                    + "fn %s(%s: int) -> int {\n    let %s: %s = %s { %s: %s }\n    let u: %s = %s.%s { %s: 2 }\n    match u {\n        %s(w) => { (println w.%s) }\n        %s(w) => { (println 0) }\n    }\n    (println %s.%s)\n    return %s.%s\n}\n"
+                      % (nm("fun", n), nm("par", n), V, nm("Str", n), nm("Str", n), nm("fld", n), nm("par", n), nm("Uni", n), nm("Uni", n), nm("Ka", n), nm("pay", n), nm("Ka", n), nm("pay", n), nm("Kb", n), nm("Enm", n), nm("Vb", n), V, nm("fld", n))
+                    + SH % nm("fun", n) + "fn main() -> int {\n    (println (%s 5))\n    return 0\n}\n" % nm("fun", n) + SH % "main").encode()))
+    for k in (1, 2, 8, 16, 31, 32, 33, 40, 41, 42, 60, 64, 65, 100, 128, 129, 256, 300):
+        for arg in ("int", "array<string>", "array<array<int>>"):
+            params = ", ".join("T%d" % i for i in range(k))
+            variants = ",\n".join("    Col%d { value: T%d }" % (i, i) for i in range(k))
+            args = ", ".join([arg] * k)
+            val = {"int": "1", "array<string>": "[name]", "array<array<int>>": "[[1]]"}[arg]
+            out.append(("many-type-params-%d" % k, ("union Row<%s> {\n%s\n}\nfn first(name: string) -> Row<%s> {\n    return Row<%s>.Col0 { value: %s }\n}\n" % (params, variants, args, args, val)
+                        + SH % "first" + "fn main() -> int {\n    let r: Row<%s> = (first \"id\")\n    (println \"ok\")\n    return 0\n}\n" % args + SH % "main").encode()))
+        ps = ", ".join("p%d: int" % i for i in range(k))
+        out.append(("many-params-%d" % k, ("fn wide(%s) -> int {\n    return p0\n}\n" % ps + SH % "wide" + "fn main() -> int {\n    (println (wide %s))\n    return 0\n}\n" % " ".join(str(i) for i in range(k)) + SH % "main").encode()))
+        out.append(("many-fields-%d" % k, ("struct Wide {\n%s\n}\nfn main() -> int {\n    let w: Wide = Wide { %s }\n    (println w.f0)\n    return 0\n}\n" % (",\n".join("    f%d: int" % i for i in range(k)), ", ".join("f%d: %d" % (i, i) for i in range(k))) + SH % "main").encode()))
     # malformed definitions
     for name, s in [("enum-double-comma", "enum Color { Red,, Green }\nfn main() -> int { return 0 }\nshadow main { assert (== 1 1) }\n"),
                     ("enum-leading-comma", "enum Color { , Red }\nfn main() -> int { return 0 }\n"),
